@@ -33,6 +33,7 @@ type hrun struct {
 	Bound    string // human-readable bound of this harness
 	NoNative bool   // uses verifrt.StubFunc: cannot run natively
 	Sched    bool   // schedule-dependent: a native run cannot force the interleaving
+	NoWitness bool  // witness paths are not replayed natively (see the bound text)
 }
 
 // engineReplay re-executes one counterexample deterministically in the
@@ -226,7 +227,7 @@ func cmdCheck(args []string) int {
 			ev.Known = append(ev.Known, what)
 		}
 		// validate a few witness paths natively (engine vs real build)
-		if !r.NoNative {
+		if !r.NoNative && !r.NoWitness {
 			ev.validateWitnesses(e, r, id)
 		}
 	}
